@@ -4,7 +4,7 @@ from __future__ import annotations
 import ast
 
 from sa.model import AnalysisError, calls_in, kwarg
-from sa.paths import function_paths, end_kind, consistent
+from sa.paths import function_paths, end_kind, consistent, must_raise
 from sa.util import U, Env, call_is, const_value
 from rules import wiring
 
@@ -162,6 +162,12 @@ def run(ctx):
     ctx.rule("C17.c", "non-numeric dtypes and nulls raise before anything is returned", 4)
 
     def raises_on(fi, pred):
+        sound = False
+        for dec in (True, False):
+            n_t, off_t = must_raise(fi.node, lambda e, d: d == dec and pred(U(e) if d else "not " + U(e)), when=None)
+            sound = sound or (n_t >= 1 and not off_t)
+        if not sound:
+            return False
         return any(end_kind(p) == "raise" and any(s[0] == "cond" and pred(U(s[1]) if s[2] else "not " + U(s[1])) for s in p) for p in function_paths(fi.node))
     c = cells.get(("pandas.Series", "extract_1d_array"))
     ctx.check(bool(c) and raises_on(c[1], lambda t: "is_numeric_dtype" in t and t.startswith("not ")), "C17.c", "pandas.Series:numeric", "non-numeric Series refused",
